@@ -23,9 +23,12 @@ GUARDS = {'all': {'regrouped+fractional': 0.1}}
 
 @st.composite
 def cases(draw, tier):
-    case = draw(gen.election_cases(tier=tier, equal_for_meek=True))
-    case.pop('nicks', None)         # the baseline uses numbers; the variant may use nicknames
     d = D(draw)
+    if d.p(3):
+        case = gen.narrow_chain_case(d)     # zero-valued papers next to valued ones: sensitive to line order and splitting
+    else:
+        case = draw(gen.election_cases(tier=tier, equal_for_meek=True))
+    case.pop('nicks', None)         # the baseline uses numbers; the variant may use nicknames
     if all(m == 1 for m, _ in case['ballots']):
         d.choice(case['ballots'])[0] = d.int(2, 9)
     variant = dict(ballots=gen.split_merge(d, case['ballots']),
